@@ -68,6 +68,7 @@ def supported(req, directed, multi):
     return True
 
 
+WMODES = ["nan", "real", "mixed", "zero", "neg"]
 SHAPES = ["empty", "one", "one_loop", "edgeless", "isolated_plus", "path", "star", "triangle_tail", "parallel",
           "two_components", "k4", "loops_everywhere", "cycle", "random"]
 
@@ -115,11 +116,16 @@ class ApiProp(props.BaseProp):
     run_module = None
     harness_mode = "api"
     profiles = ["debug", "release"]
-    quick_n, thorough_n = 448, 3000
+    quick_n, thorough_n = 560, 3360
     rule = ("all 8 graph kinds (directed x multi-edge x self-loops) x 14 shapes (empty, one node, one node with a "
             "self-loop, edgeless, isolated node + component, path with degree-1 tails, star, triangle with a tail, "
             "parallel / antiparallel edges, two components, K4, self-loops on every node, cycle, random) x weights "
-            "{unweighted, 1..3, mixed, 0..2 with many zeros}, names whose sort order differs from insertion order; on each graph every public "
+            "{unweighted, 1..3, mixed, 0..2 with many zeros, NEGATIVE: drawn from -2,-1,1,2}, names whose sort order differs from insertion order "
+            "(quick tier: 14 x 8 x 5 = 560 graphs, every shape x kind x weight-mode combination once); a negative weight is a graph "
+            "the structure can represent: on it a Result-returning function may answer Err (the shortest-path entry points: "
+            "ContradictoryPaths) or a value but must not panic (F22: all_pairs / multi_source did), and "
+            "get_all_shortest_paths_involving - no error channel, called like everywhere else with weighted = false AND true, "
+            "nothing is skipped on these graphs - must not panic either (it maps an Err of all_pairs to the empty vector); on each graph every public "
             "function of the crate (100 call shapes incl. every option combination of the shortest-path entry points) is called with names of the graph and, for functions with a "
             "Result/Option channel, one absent name, in a debug AND a release build, each under a 4 s watchdog; "
             "non-trivial = the graph has at least one node; distinct = distinct case text")
@@ -136,13 +142,14 @@ class ApiProp(props.BaseProp):
             kind = i % 8
             d, m, s = kind & 1, (kind >> 1) & 1, (kind >> 2) & 1
             shape = SHAPES[(i // 8) % len(SHAPES)]
-            wmode = ["nan", "real", "mixed", "zero"][(i // (8 * len(SHAPES))) % 4]
+            wmode = WMODES[(i // (8 * len(SHAPES))) % len(WMODES)]
             nn, es = shape_edges(r, shape, s, m)
             names = r.shuffle([3, 11, 5, 7, 2, 13, 1][:nn]) if nn <= 7 else list(range(nn))
             edges = []
             for (u, v) in es:
                 w = None if wmode == "nan" else (1 + r.below(3) if wmode == "real" else
-                                                 (r.pick([0, 0, 1, 2]) if wmode == "zero" else r.pick([None, 1, 2])))
+                                                 (r.pick([0, 0, 1, 2]) if wmode == "zero" else
+                                                  (r.pick([-2, -1, 1, 2]) if wmode == "neg" else r.pick([None, 1, 2]))))
                 edges.append((names[u], names[v], w, None))
             spec = (d, m, s, 2 if not m else 0, 0, 1)
             cases.append({"id": "a%d" % i, "spec": spec, "nodes": [(x, None) for x in names], "edges": edges,
@@ -234,23 +241,29 @@ class ApiProp(props.BaseProp):
                 "single_source never panic and never exhaust their fuel for ANY weights, names, options and cutoff "
                 "(negative weights may give Err ContradictoryPaths, absent names Err NodeNotFound: "
                 "C20_dijkstra_never_panics, C20_dijkstra_basic_never_panics, C20_single_source_never_panics); "
-                "multi_source, all_pairs and get_all_shortest_paths_involving never panic for non-negative stored "
-                "weights (or hop count) and cutoff >= 0, any names and options (C20_multi_source_never_panics_partial, "
-                "C20_all_pairs_never_panics_partial, C20_involving_never_panics_partial). "
+                "since the repair of F22 (the per-source Result is propagated with `?` instead of unwrapped) the same holds, "
+                "in full, for multi_source, all_pairs and get_all_shortest_paths_involving: ANY weights, names, options and "
+                "cutoff (C20_multi_source_never_panics, C20_all_pairs_never_panics, C20_involving_never_panics - the former "
+                "_partial statements without their weight and cutoff hypotheses), and the error channel carries only the "
+                "documented kinds, on every graph state: NodeNotFound / ContradictoryPaths (single_source, multi_source), plus "
+                "EdgeWeightNotSpecified (all_pairs) (C20_*_error_kinds); get_all_shortest_paths_involving, which returns a "
+                "Vec, maps an Err of all_pairs to the empty vector (C20_involving_of_error). Example "
+                "C20_negative_weights_err: on the reachable graph 1->2 (1), 1->3 (2), 3->2 (-5) single_source, multi_source "
+                "and all_pairs all return Err ContradictoryPaths and involving returns []. "
                 "The other algorithm families carry their own no-panic / fuel-suffices "
                 "theorems (C04-C06, C10-C13, C18, C19). Beyond the theorems the check sweeps EVERY public function x 8 "
                 "graph kinds x 14 degenerate shapes x existing/absent names in debug and release builds under a watchdog "
                 "and applies the property's rules (no panic, no hang, error channel used for unsupported kinds and absent "
                 "names).",
-        "note": "NOT proved, and false in the model: multi_source / all_pairs / get_all_shortest_paths_involving with "
-                "NEGATIVE weights - they unwrap the per-source Result (dijkstra.rs:376, :172), so a ContradictoryPaths "
-                "becomes a panic (Example C20_negative_weights_panic; negative weights are outside the property's "
-                "'valid calls' and are not generated by the sweep). "
+        "note": "What remains a hypothesis of the shortest-path totality theorems is small_adj alone (fewer than 2^31-1 "
+                "adjacency entries: beyond that the i32 fringe counter of dijkstra.rs overflows, a panic in a debug build). "
+                "Negative weights ARE generated by the sweep (fifth weight mode). "
                 "Partial: the sweep is exploration, not proof, for the functions whose models live in other packages; "
                 "'does not hang' is a 4 s watchdog. Axioms: none. Defects found by the sweep and repaired by fix: commits: "
                 "F5/F19 (clustering subsets / absent names), F6 (transitivity underflow), F7 (multi-edge guards), F13 "
                 "(all_pairs absent target), F14 (eigenvector on multi-edge graphs), F15 (square_clustering underflow), "
-                "F18 (node_connected_component absent name).",
+                "F18 (node_connected_component absent name), F22 (all_pairs / multi_source unwrapped the per-source "
+                "Err(ContradictoryPaths) on a graph with a negative weight).",
         "technique": "Coq proof of Panic-site unreachability under WF + exhaustive API sweep (debug+release, watchdog)",
     }
 
